@@ -21,6 +21,7 @@ CONSTANTS
   Prefix <- NoPrefix
   MaxHavoc = 0
   KeepRec = FALSE
+  NestedTrigs = {}
 INVARIANT NoBad
 INVARIANT Structural
 INVARIANT NeverLost
